@@ -1,6 +1,8 @@
 (* C16 — Multi-class and linear SVM solvers are configuration-invariant and consistent.
    Only statements + `exact`; proofs in C16Proofs.v / C16ProofsMc.v / C16ProofsGain.v (and, for the
-   shared free functions, C08ProofsBox.v); executable model in C16Model.v (+ C08Model.v).
+   shared free functions, C08ProofsBox.v), state model proofs in C16GradProofs / C16SmoProofs / C16SmoSimplexProofs /
+   C16InitProofs / C16TablesProofs / C16DeactProofs / C16UnshrinkProofs / C16ShrinkProofs / C16SimplexShrinkProofs /
+   C16HistProofs; executable models in C16Model.v (+ C08Model.v) and C16State.v.
 
    PROPERTY (properties.jsonl): for every multi-class formulation the trained decision function is,
    within the solver accuracy, the same with shrinking on/off, cached (any admissible size) or
@@ -15,8 +17,6 @@
        box: 0 <= alpha <= C.  simplex: alpha >= 0 and sum_p alpha(e,p) <= C + 1e-14 - the 1e-14 is
        the snapping slack of updateVarsum and it is attained in the model (C16_simplex_slack_witness),
        hence the name `_partial`: the property's exact simplex is NOT what the code maintains.
-       Not modelled: the shrinking book-keeping (variable/example tables are permuted, values are not
-       changed) - monitored on the real solvers.
      * the analytic sub-solvers the steps are made of (all three repaired in /repo: edge solver
        degenerate test Q <= 0, box solver bc5f2886, triangle solver ab716aec):
        solveQuadratic2DTriangle returns a point of the triangle for every feasible start and ALL other
@@ -36,14 +36,50 @@
      * the merge scan over a QpSparseArray row used by selectWorkingSet / maxGainBox / maxGainSimplex
        reads exactly operator()(row, col), provided the row was filled in increasing column order
        (and not otherwise: sa_scan_unsorted_differs).
+     * STATE MODEL C16State.v (every member of the two classes: alpha, gradient, linear term, m_variables
+       {example, p, index, diagonal}, m_examples {index, y, active, var[], avar[], varsum, diagonal}, active counts,
+       bUnshrinked, m_M as sparse rows, the kernel matrix under the example permutation), operations AS CODED,
+       under Mwf (rows of M in increasing column order, columns < |P|), M and K symmetric, non-negative diagonals:
+       - gradientUpdate subtracts exactly mu * Q(v,f) from every active f (C16_gradient_update_exact); the
+         constructor establishes all invariants (C16_constructor_establishes_invariants);
+       - updateSMO of QpMcBoxDecomp, both branches, every working set inside the active set: gradient = linear -
+         Q alpha on the active set, box, objective never decreases, every other variable and every table
+         unchanged (C16_box_smo_step); of QpMcSimplexDecomp, all three branches: same with the simplex / varsum
+         invariant; objective non-decreasing in the one-variable and two-examples branches and in the triangle
+         branch when the snapping does not move the point (C16_simplex_smo_step_partial - the snapping can lose
+         objective: C16_triangle_snap_loses);
+       - deactivateVariable / deactivateExample (swaps in both tables, flipColumnsAndRows as the swap of the
+         example's data index): tables stay permutations, cross indices consistent on both sides (variable v
+         belongs to example e at class position p and in slot b of the active list), first `active` slots = the
+         active variables, active variables belong to active examples; alpha, linear term, diagonal, gradient,
+         label, varsum travel with the variable / example (same_vars); gradient invariant on the smaller active
+         set; constraints; objective unchanged (C16_deactivate_variable, C16_deactivate_example);
+       - unshrink(): gradient = linear - Q alpha for ALL variables afterwards, active entries not touched, nothing
+         else changes (C16_unshrink_recomputes_gradient);
+       - shrink() of both classes as coded, incl. the one-time unshrink: full invariant kept, no value moves, same
+         objective (C16_box_shrink_preserves, C16_simplex_shrink_preserves); removal is sound at that moment:
+         box (C16_box_shrink_sound), simplex example - the behaviour repaired by 8a4e0090: no positive variable,
+         however tiny, is hidden behind varsum == 0 - (C16_simplex_shrink_example_sound), simplex variable
+         (C16_simplex_shrink_variable_sound); the branch of the simplex shrink that would read avar[active] is
+         dead (C16_simplex_shrink_dead_branch);
+       - C16_every_history (FULL statement): both classes, with and without shrinking, every history of updateSMO /
+         shrink / unshrink / addDeltaLinear keeps the full invariant; C16_every_history_box_objective: the box
+         class never loses objective over a history; C16_labels_follow_examples: labels must be read by data
+         index after shrinking (repair 295c135c).
    NOT PROVED - the property's main clauses (configuration invariance, two-class reduction,
    kernel-vs-linear primal objective) would need convergence proofs of the decomposition solvers.
    They are MONITORED on every run by tools/c16.py on the real trainers (metamorphic runs with a
    tolerance derived from the measured duality gap) - see the evidence file.
+   NOT MODELLED: selectWorkingSet / maxGainBox / maxGainSimplex (the working set is an input of the step; the
+   repair c9be7fe4 lives there), BiasSolver's Rprop loop (its addDeltaLinear is modelled), the kernel cache.
    COMPARED on every run: the float instantiation of C16Model (free functions exactly; update steps
-   one step at a time on the implementation's own previous state) vs. the compiled C++. *)
+   one step at a time on the implementation's own previous state) and of C16State (constructor, updateSMO,
+   shrink, unshrink, addDeltaLinear: the full positional state after each operation, bit for bit, from the
+   implementation's own previous state) vs. the compiled C++; table / kernel-permutation monitors. *)
 From Coq Require Import QArith Qabs List.
 From SharkV Require Import C08Model C08Defs C08ProofsBox C16Model C16Proofs C16ProofsMc C16ProofsGain.
+From SharkV Require Import C16State C16StateDefs C16GradProofs C16SmoProofs C16SmoSimplexProofs C16InitProofs
+  C16TablesProofs C16DeactProofs C16UnshrinkProofs C16ShrinkProofs C16SimplexShrinkProofs C16HistProofs C16WitnessProofs.
 Import ListNotations.
 Open Scope Q_scope.
 
@@ -201,3 +237,243 @@ Example C16_max_gain_2d_sat : 0 < 2 /\ 0 <= 2 /\ qthr * (2 * 2) < 2 * 2 - 1 * 1.
 Proof. exact max_gain_2d_opt_sat. Qed.
 Example C16_sparse_sorted_sat : sorted_from Q 0 [(0%nat, 5); (2%nat, 7)].
 Proof. exact sparse_sorted_sat. Qed.
+
+(* ======================================================================================================
+   STATE MODEL (C16State.v): gradient, linear term, variable table, example table, shrinking.
+   Hypotheses used throughout: Mwf (rows of m_M filled in increasing column order, columns < |P|), Msym / K0sym
+   (M and the kernel matrix symmetric), Qdiag_nonneg (M(y,p,y,p) >= 0, k(x,x) >= 0).
+   ====================================================================================================== *)
+
+(* gradientUpdate as coded (sparse entries through ex.var, row default through the active part of ex.avar,
+   active examples only) subtracts exactly mu * Q(v, f) from the gradient of every ACTIVE variable f *)
+Theorem C16_gradient_update_exact :
+  forall (P ncl n : nat) (Mrow : nat -> list (nat * Q)) (Mdef : nat -> Q) (K0 : nat -> nat -> Q), Mwf P Mrow ->
+  forall (s : qmst) (g : nat -> Q) (mu : Q) (v f : nat), Inv_tab P n s -> (f < actvar s)%nat ->
+  grad_updateQ ncl Mrow Mdef K0 s g (P * ey s (vex s v) + vp s v) mu (vex s v) f == g f - mu * Qe P ncl Mrow Mdef K0 s v f.
+Proof. exact grad_update_Qe. Qed.
+Print Assumptions C16_gradient_update_exact.
+
+(* the constructor establishes every invariant *)
+Theorem C16_constructor_establishes_invariants :
+  forall (P ncl n : nat) (C : Q) (Mrow : nat -> list (nat * Q)) (Mdef : nat -> Q) (K0 : nat -> nat -> Q), (0 < P)%nat -> 0 < C ->
+  forall (y0 : nat -> nat) (lin0 : nat -> nat -> Q),
+  let s0 := init_stateQ P ncl n Mrow Mdef K0 y0 lin0 in
+  Inv_tab P n s0 /\ Inv_data P ncl n Mrow Mdef K0 y0 lin0 s0 /\ Inv_grad_all P ncl n Mrow Mdef K0 s0 /\
+  Inv_boxc P n C s0 /\ Inv_simplex P n C s0 /\ actvar s0 = nv P n /\ actex s0 = n.
+Proof.
+  intros P ncl n C Mrow Mdef K0 HP HC y0 lin0 s0.
+  split; [apply init_tab; exact HP|]. split; [apply init_data|]. split; [apply init_grad|].
+  split; [apply init_boxc; apply Qlt_le_weak; exact HC|]. split; [apply init_simplex; exact HC|]. split; reflexivity.
+Qed.
+Print Assumptions C16_constructor_establishes_invariants.
+
+(* QpMcBoxDecomp::updateSMO, every working set inside the active set, both branches: gradient = linear - Q alpha on
+   the active set, box, objective does not decrease, nothing else changes *)
+Theorem C16_box_smo_step :
+  forall (P ncl n : nat) (C : Q) (Mrow : nat -> list (nat * Q)) (Mdef : nat -> Q) (K0 : nat -> nat -> Q),
+  Mwf P Mrow -> Msym P ncl Mrow Mdef -> K0sym K0 -> Qdiag_nonneg P ncl Mrow Mdef K0 -> 0 <= C ->
+  forall (y0 : nat -> nat) (lin0 : nat -> nat -> Q) (s : qmst) (v w : nat),
+  Inv_tab P n s -> Inv_data P ncl n Mrow Mdef K0 y0 lin0 s -> Inv_grad P ncl n Mrow Mdef K0 s -> Inv_boxc P n C s ->
+  (v < actvar s)%nat -> (w < actvar s)%nat ->
+  let s' := box_smoQ P ncl C Mrow Mdef K0 s v w in
+  Inv_tab P n s' /\ Inv_data P ncl n Mrow Mdef K0 y0 lin0 s' /\ Inv_grad P ncl n Mrow Mdef K0 s' /\ Inv_boxc P n C s' /\
+  mobj P ncl n Mrow Mdef K0 s <= mobj P ncl n Mrow Mdef K0 s' /\
+  (forall a, a <> v -> a <> w -> malpha s' a = malpha s a) /\
+  mlin s' = mlin s /\ vex s' = vex s /\ vp s' = vp s /\ vidx s' = vidx s /\ vdiag s' = vdiag s /\
+  eorig s' = eorig s /\ ey s' = ey s /\ eact s' = eact s /\ evar s' = evar s /\ eavar s' = eavar s /\
+  evsum s' = evsum s /\ ediag s' = ediag s /\ actex s' = actex s /\ actvar s' = actvar s /\ munshr s' = munshr s.
+Proof. exact box_smo_preserves. Qed.
+Print Assumptions C16_box_smo_step.
+
+(* QpMcSimplexDecomp::updateSMO, all three branches.  Full statement wanted: ... /\ mobj s <= mobj s' in every branch.
+   Proved: in the one-variable branch, the two-examples branch, and the triangle branch whenever the final snapping
+   of solveQuadratic2DTriangle does not move the point; the snapping CAN lose objective (C16_triangle_snap_loses). *)
+Theorem C16_simplex_smo_step_partial :
+  forall (P ncl n : nat) (C : Q) (Mrow : nat -> list (nat * Q)) (Mdef : nat -> Q) (K0 : nat -> nat -> Q),
+  Mwf P Mrow -> Msym P ncl Mrow Mdef -> K0sym K0 -> Qdiag_nonneg P ncl Mrow Mdef K0 -> 0 < C ->
+  forall (y0 : nat -> nat) (lin0 : nat -> nat -> Q) (s : qmst) (v w : nat),
+  Inv_tab P n s -> Inv_data P ncl n Mrow Mdef K0 y0 lin0 s -> Inv_grad P ncl n Mrow Mdef K0 s -> Inv_simplex P n C s ->
+  (v < actvar s)%nat -> (w < actvar s)%nat ->
+  let s' := simplex_smoQ P ncl C Mrow Mdef K0 s v w in
+  Inv_tab P n s' /\ Inv_data P ncl n Mrow Mdef K0 y0 lin0 s' /\ Inv_grad P ncl n Mrow Mdef K0 s' /\ Inv_simplex P n C s' /\
+  (v = w \/ vex s v <> vex s w \/ smo_tri_nosnap P ncl C Mrow Mdef K0 s v w ->
+     mobj P ncl n Mrow Mdef K0 s <= mobj P ncl n Mrow Mdef K0 s') /\
+  (forall a, a <> v -> a <> w -> malpha s' a = malpha s a) /\
+  (forall e, e <> vex s v -> e <> vex s w -> evsum s' e = evsum s e) /\
+  mlin s' = mlin s /\ vex s' = vex s /\ vp s' = vp s /\ vidx s' = vidx s /\ vdiag s' = vdiag s /\
+  eorig s' = eorig s /\ ey s' = ey s /\ eact s' = eact s /\ evar s' = evar s /\ eavar s' = eavar s /\
+  ediag s' = ediag s /\ actex s' = actex s /\ actvar s' = actvar s /\ munshr s' = munshr s.
+Proof. exact simplex_smo_preserves. Qed.
+Print Assumptions C16_simplex_smo_step_partial.
+
+Theorem C16_triangle_snap_loses :
+  let ai := 1 # 2000000000000 in let gi := 3 # 10000000000000 in
+  0 <= ai /\ ai + 0 <= 1 /\
+  0 < G2 ai 0 gi (-(1)) 1 0 1 (tri_unsnapped ai 0 gi (-(1)) 1 0 1 1) /\
+  solve_tri qops qlowest ai 0 gi (-(1)) 1 0 1 1 = (0, 0) /\
+  G2 ai 0 gi (-(1)) 1 0 1 (solve_tri qops qlowest ai 0 gi (-(1)) 1 0 1 1) < 0.
+Proof. exact tri_snap_loses. Qed.
+Print Assumptions C16_triangle_snap_loses.
+
+(* deactivateVariable / deactivateExample: tables stay permutations with consistent cross indices, data travel with
+   the variable / example (same_vars), gradient invariant on the smaller active set, constraints, objective *)
+Theorem C16_deactivate_variable :
+  forall (P ncl n : nat) (C : Q) (Mrow : nat -> list (nat * Q)) (Mdef : nat -> Q) (K0 : nat -> nat -> Q)
+         (y0 : nat -> nat) (lin0 : nat -> nat -> Q) (b : bool) (s : qmst) (v : nat),
+  Inv_all P ncl n C Mrow Mdef K0 y0 lin0 b s -> (v < actvar s)%nat ->
+  Inv_all P ncl n C Mrow Mdef K0 y0 lin0 b (deact_var s v) /\
+  same_vars P n s (deact_var s v) /\ mobj P ncl n Mrow Mdef K0 (deact_var s v) == mobj P ncl n Mrow Mdef K0 s /\
+  actvar (deact_var s v) = (actvar s - 1)%nat /\
+  (forall e p, (e < n)%nat -> (p < P)%nat ->
+     ((evar (deact_var s v) e p < actvar (deact_var s v))%nat <-> (evar s e p < actvar s)%nat /\ evar s e p <> v)).
+Proof.
+  intros P ncl n C Mrow Mdef K0 y0 lin0 b s v IA Hv.
+  destruct (deact_var_all P ncl n C Mrow Mdef K0 y0 lin0 b s v IA Hv) as [A [B1 B2]].
+  split; [exact A|]. split; [exact B1|]. split; [exact B2|]. split; [apply dv_counts|].
+  destruct IA as (I & _). intros e p He Hp. apply (deact_var_active P n s v I Hv e p He Hp).
+Qed.
+Print Assumptions C16_deactivate_variable.
+
+Theorem C16_deactivate_example :
+  forall (P ncl n : nat) (C : Q) (Mrow : nat -> list (nat * Q)) (Mdef : nat -> Q) (K0 : nat -> nat -> Q)
+         (y0 : nat -> nat) (lin0 : nat -> nat -> Q) (b : bool) (s : qmst) (e : nat),
+  Inv_all P ncl n C Mrow Mdef K0 y0 lin0 b s -> (e < actex s)%nat -> eact s e = 0%nat ->
+  Inv_all P ncl n C Mrow Mdef K0 y0 lin0 b (deact_ex P s e) /\
+  same_vars P n s (deact_ex P s e) /\ mobj P ncl n Mrow Mdef K0 (deact_ex P s e) == mobj P ncl n Mrow Mdef K0 s /\
+  actex (deact_ex P s e) = (actex s - 1)%nat /\ actvar (deact_ex P s e) = actvar s.
+Proof.
+  intros P ncl n C Mrow Mdef K0 y0 lin0 b s e IA He Hz.
+  destruct (deact_ex_all P ncl n C Mrow Mdef K0 y0 lin0 b s e IA He Hz) as [A [B1 B2]].
+  split; [exact A|]. split; [exact B1|]. split; [exact B2|].
+  destruct (deact_ex_plain P s e) as (_ & _ & _ & _ & _ & X & Y & _). split; assumption.
+Qed.
+Print Assumptions C16_deactivate_example.
+
+(* unshrink(): afterwards gradient = linear - Q alpha for ALL variables, nothing else changes, everything is active *)
+Theorem C16_unshrink_recomputes_gradient :
+  forall (P ncl n : nat) (C : Q) (Mrow : nat -> list (nat * Q)) (Mdef : nat -> Q) (K0 : nat -> nat -> Q), Mwf P Mrow ->
+  forall (y0 : nat -> nat) (lin0 : nat -> nat -> Q) (b : bool) (s : qmst),
+  Inv_all P ncl n C Mrow Mdef K0 y0 lin0 b s ->
+  let s' := unshrinkQ P ncl n Mrow Mdef K0 s in
+  Inv_all P ncl n C Mrow Mdef K0 y0 lin0 b s' /\ Inv_grad_all P ncl n Mrow Mdef K0 s' /\
+  same_vals P n s s' /\ mobj P ncl n Mrow Mdef K0 s' == mobj P ncl n Mrow Mdef K0 s.
+Proof. exact unshrink_all. Qed.
+Print Assumptions C16_unshrink_recomputes_gradient.
+
+(* QpMcBoxDecomp::shrink: a variable is removed only when no feasible change of it improves the objective (first order) *)
+Theorem C16_box_shrink_sound : forall (C : Q) (s : qmst) (a : nat), box_can_shrink qops C s a = true ->
+  ((malpha s a == 0 /\ mgrad s a <= 0) \/ (malpha s a == C /\ 0 <= mgrad s a)) /\
+  (forall d, 0 <= malpha s a + d -> malpha s a + d <= C -> d * mgrad s a <= 0).
+Proof. exact box_can_shrink_sound. Qed.
+Print Assumptions C16_box_shrink_sound.
+
+(* QpMcBoxDecomp::shrink as coded (one-time unshrink, variable loop, example loop) *)
+Theorem C16_box_shrink_preserves :
+  forall (P ncl n : nat) (C : Q) (Mrow : nat -> list (nat * Q)) (Mdef : nat -> Q) (K0 : nat -> nat -> Q), Mwf P Mrow ->
+  forall (y0 : nat -> nat) (lin0 : nat -> nat -> Q) (shrinking : bool) (eps : Q) (s : qmst),
+  Inv_all P ncl n C Mrow Mdef K0 y0 lin0 false s ->
+  let s' := box_shrinkQ P ncl n C Mrow Mdef K0 shrinking eps s in
+  Inv_all P ncl n C Mrow Mdef K0 y0 lin0 false s' /\ same_vals P n s s' /\
+  mobj P ncl n Mrow Mdef K0 s' == mobj P ncl n Mrow Mdef K0 s.
+Proof. exact box_shrink_all. Qed.
+Print Assumptions C16_box_shrink_preserves.
+
+Example C16_state_hyps_sat :
+  Mwf 1 wMrow /\ Msym 1 2 wMrow wMdef /\ K0sym wK0 /\ Qdiag_nonneg 1 2 wMrow wMdef wK0 /\ 0 < 1 /\
+  Inv_tab 1 2 ws0 /\ Inv_data 1 2 2 wMrow wMdef wK0 wy0 wlin0 ws0 /\ Inv_grad 1 2 2 wMrow wMdef wK0 ws0 /\
+  Inv_boxc 1 2 1 ws0 /\ Inv_simplex 1 2 1 ws0 /\ (0 < actvar ws0)%nat /\ (1 < actvar ws0)%nat.
+Proof. exact w_hyps. Qed.
+
+(* QpMcSimplexDecomp::shrink, case 2 (as repaired by /repo 8a4e0090: down > 0 added): an example is removed only if
+   every active variable of it is zero - none is positive, however tiny, whatever varsum says - and all gradients are
+   negative; no feasible step inside the example improves the objective to first order *)
+Theorem C16_simplex_shrink_example_sound : forall (s : qmst) (e : nat),
+  (forall b, (b < eact s e)%nat -> 0 <= malpha s (eavar s e b)) ->
+  let up := mvp_up qops s e (eact s e) in let down := mvp_down qops s e (eact s e) in
+  o_eqb qops (evsum s e) 0 && o_ltb qops up 0 && o_ltb qops 0 down = true ->
+  (forall b, (b < eact s e)%nat -> malpha s (eavar s e b) == 0 /\ mgrad s (eavar s e b) < 0) /\
+  (forall d : nat -> Q, (forall b, (b < eact s e)%nat -> 0 <= malpha s (eavar s e b) + d b) ->
+     forall b, (b < eact s e)%nat -> d b * mgrad s (eavar s e b) <= 0).
+Proof. exact simplex_case2_sound. Qed.
+Print Assumptions C16_simplex_shrink_example_sound.
+
+(* case 1: a variable of a simplex at its bound is removed only if it is zero and its gradient is below that of every
+   positive variable of the example (down = getSimplexMVP's minimum, C16_mvp_down_is_lower_bound) *)
+Theorem C16_simplex_shrink_variable_sound : forall (s : qmst) (e : nat) (down : Q) (v : nat),
+  (forall b, (b < eact s e)%nat -> 0 < malpha s (eavar s e b) -> down <= mgrad s (eavar s e b)) ->
+  o_eqb qops (malpha s v) 0 && o_ltb qops (o_sub qops (mgrad s v) down) 0 = true ->
+  malpha s v == 0 /\
+  forall b, (b < eact s e)%nat -> 0 < malpha s (eavar s e b) -> mgrad s v - mgrad s (eavar s e b) < 0.
+Proof. exact simplex_case1_sound. Qed.
+Print Assumptions C16_simplex_shrink_variable_sound.
+
+Theorem C16_mvp_down_is_lower_bound : forall (s : qmst) (e m b : nat), (b < m)%nat -> 0 < malpha s (eavar s e b) ->
+  mvp_down qops s e m <= mgrad s (eavar s e b).
+Proof. exact mvp_down_le. Qed.
+Print Assumptions C16_mvp_down_is_lower_bound.
+
+(* the branch of case 1 that would call deactivateVariable(ex.avar[ex.active]) (one past the active list) is dead:
+   up is the largest gradient among the active variables of the example *)
+Theorem C16_simplex_shrink_dead_branch : forall (C : Q) (s : qmst) (e p : nat) (up : Q),
+  (forall b, (b < S p)%nat -> mgrad s (eavar s e b) <= up) ->
+  o_eqb qops (malpha s (eavar s e p)) C && o_ltb qops (o_sub qops up (mgrad s (eavar s e p))) (o_zero qops) = false.
+Proof. exact sshrink_case1_dead. Qed.
+Print Assumptions C16_simplex_shrink_dead_branch.
+
+(* QpMcSimplexDecomp::shrink as coded (one-time unshrink via checkKKT, loop over the examples, both cases, the
+   composite deactivateVariable with deactivateExample) *)
+Theorem C16_simplex_shrink_preserves :
+  forall (P ncl n : nat) (C : Q) (Mrow : nat -> list (nat * Q)) (Mdef : nat -> Q) (K0 : nat -> nat -> Q), Mwf P Mrow ->
+  forall (y0 : nat -> nat) (lin0 : nat -> nat -> Q) (shrinking : bool) (eps : Q) (s : qmst),
+  Inv_all P ncl n C Mrow Mdef K0 y0 lin0 true s ->
+  let s' := simplex_shrinkQ P ncl n C Mrow Mdef K0 shrinking eps s in
+  Inv_all P ncl n C Mrow Mdef K0 y0 lin0 true s' /\ same_vals P n s s' /\
+  mobj P ncl n Mrow Mdef K0 s' == mobj P ncl n Mrow Mdef K0 s.
+Proof. exact simplex_shrink_all. Qed.
+Print Assumptions C16_simplex_shrink_preserves.
+
+(* FULL statement, invariants: for both solver classes, with and without shrinking, EVERY history of operations
+   (updateSMO on working sets inside the active set, shrink with any epsilon, unshrink, addDeltaLinear, in any order)
+   keeps the full invariant: tables are permutations with consistent cross indices, data attached to the right
+   variable / example, gradient = linear - Q alpha on the active set, box resp. simplex constraints *)
+Theorem C16_every_history :
+  forall (P ncl n : nat) (C : Q) (Mrow : nat -> list (nat * Q)) (Mdef : nat -> Q) (K0 : nat -> nat -> Q),
+  Mwf P Mrow -> Msym P ncl Mrow Mdef -> K0sym K0 -> Qdiag_nonneg P ncl Mrow Mdef K0 -> 0 < C ->
+  forall (y0 : nat -> nat) (simplex shrinking : bool) (ops : list (mop Q)) (s : qmst),
+  Inv_hist P ncl n C Mrow Mdef K0 y0 simplex s -> wf_mrun P ncl n C Mrow Mdef K0 simplex shrinking s ops ->
+  Inv_hist P ncl n C Mrow Mdef K0 y0 simplex (mrunQ P ncl n C Mrow Mdef K0 simplex shrinking s ops).
+Proof. exact mrun_hist. Qed.
+Print Assumptions C16_every_history.
+
+(* QpMcBoxDecomp: over every history without addDeltaLinear the dual objective never decreases *)
+Theorem C16_every_history_box_objective :
+  forall (P ncl n : nat) (C : Q) (Mrow : nat -> list (nat * Q)) (Mdef : nat -> Q) (K0 : nat -> nat -> Q),
+  Mwf P Mrow -> Msym P ncl Mrow Mdef -> K0sym K0 -> Qdiag_nonneg P ncl Mrow Mdef K0 -> 0 < C ->
+  forall (y0 : nat -> nat) (shrinking : bool) (ops : list (mop Q)) (s : qmst),
+  Inv_hist P ncl n C Mrow Mdef K0 y0 false s -> wf_mrun P ncl n C Mrow Mdef K0 false shrinking s ops ->
+  Forall no_addlin ops ->
+  mobj P ncl n Mrow Mdef K0 s <= mobj P ncl n Mrow Mdef K0 (mrunQ P ncl n C Mrow Mdef K0 false shrinking s ops).
+Proof. exact mrun_obj_box. Qed.
+Print Assumptions C16_every_history_box_objective.
+
+(* /repo 295c135c: after any history the label of the example sitting at position e is the label of the data-set
+   element eorig e - label(i) must be taken by DATA index (m_labels), not by position *)
+Theorem C16_labels_follow_examples :
+  forall (P ncl n : nat) (C : Q) (Mrow : nat -> list (nat * Q)) (Mdef : nat -> Q) (K0 : nat -> nat -> Q),
+  Mwf P Mrow -> Msym P ncl Mrow Mdef -> K0sym K0 -> Qdiag_nonneg P ncl Mrow Mdef K0 -> 0 < C ->
+  forall (y0 : nat -> nat) (simplex shrinking : bool) (ops : list (mop Q)) (s : qmst),
+  Inv_hist P ncl n C Mrow Mdef K0 y0 simplex s -> wf_mrun P ncl n C Mrow Mdef K0 simplex shrinking s ops ->
+  let s' := mrunQ P ncl n C Mrow Mdef K0 simplex shrinking s ops in
+  forall e, (e < n)%nat -> ey s' e = y0 (eorig s' e) /\ (eorig s' e < n)%nat.
+Proof.
+  intros P ncl n C Mrow Mdef K0 H1 H2 H3 H4 H5 y0 simplex shrinking ops s IH W s' e He.
+  destruct (mrun_hist P ncl n C Mrow Mdef K0 H1 H2 H3 H4 H5 y0 simplex shrinking ops s IH W) as [lin0 (I & [D1 _] & _)].
+  split; [apply D1; exact He | apply (it_orig _ _ _ I); exact He].
+Qed.
+Print Assumptions C16_labels_follow_examples.
+
+Example C16_history_hyps_sat :
+  Inv_hist 1 2 2 1 wMrow wMdef wK0 wy0 false ws0 /\ Inv_hist 1 2 2 1 wMrow wMdef wK0 wy0 true ws0 /\
+  wf_mrun 1 2 2 1 wMrow wMdef wK0 false true ws0 [MSmo 0%nat 1%nat; MShrink (1 # 10); MUnshrink] /\
+  Forall no_addlin [MSmo 0%nat 1%nat; MShrink (1 # 10); @MUnshrink Q].
+Proof. exact w_hist_hyps. Qed.
